@@ -28,4 +28,5 @@ VARIANTS = [
     V('node-position-through-general-constructor', 'basic_robotics/path_planning/pathplanner.py', ('        self.position = position\n        self.parent = parent\n        self.mode = mode', '        self.position = position if isinstance(position, tm) else tm(position)\n        self.parent = parent\n        self.mode = mode'), 'fire', 'R15.6'),
     V('benign-node-position-copied', 'basic_robotics/path_planning/pathplanner.py', ('        self.position = position\n        self.parent = parent\n        self.mode = mode', '        self.position = None if position is None else position.copy()\n        self.parent = parent\n        self.mode = mode'), 'silent'),
     V('benign-node-position-named', 'basic_robotics/path_planning/pathplanner.py', ('        self.position = position\n        self.parent = parent\n        self.mode = mode', '        where = position\n        self.parent = parent\n        self.position = where\n        self.mode = mode'), 'silent'),
+    V('terrain-regeneration-drops-tail-of-box-list', 'basic_robotics/path_planning/pathplanner.py', ('        cx = int(xd/xc)\n        cy = int(yd/yc)\n        for i in range(cx):', "        cx = int(xd/xc)\n        cy = int(yd/yc)\n        del self.obstructions[len(self.obstructions) - getattr(self, 'terrain_blocks', 0):]\n        self.terrain_blocks = cx * cy\n        for i in range(cx):"), 'fire', 'R15.4'),
 ]
